@@ -233,6 +233,9 @@ func (sc *c14Scenario) Run(s *simrt.Sim) {
 			}
 			for si, st := range c.Steps {
 				x := (ci+1)*1000 + si
+				if ci == 0 && si == 0 {
+					x = 0 // one request carries the zero value
+				}
 				if st == "YieldFrom" {
 					r := &c14Req{caller: ci, seq: si, x: x}
 					sc.reqs = append(sc.reqs, r)
